@@ -562,6 +562,26 @@ func (vc *VC) loopInvariants(fr *Frame, li *loopInfo) []invariant {
 			}})
 		}
 	}
+	if fr.top && fr.con != nil && len(fr.con.Modifies) > 0 && vc.next0 != "" && !fr.con.Flags["noloopframe"] {
+		// the function's frame holds at every loop head: objects that existed at entry differ from
+		// their entry values only as the modifies clauses allow (checked on entry and at every back
+		// edge like any invariant; lets targeted or whole-variable havoc keep the frame)
+		con := fr.con
+		lm := vc.loopMods(fr, li)
+		out = append(out, invariant{src: "auto: the modifies clause holds so far", fn: func(st *State) string {
+			var gs []string
+			for _, g := range vc.frameGoals(fr.fn, con, fr.params, fr.entry, st, vc.next0) {
+				// only heap variables this loop can write need to be re-established
+				if k := strings.Index(g.name, "#frame:"); k >= 0 && !lm.all {
+					if _, written := lm.heap[g.name[k+len("#frame:"):]]; !written {
+						continue
+					}
+				}
+				gs = append(gs, g.goal)
+			}
+			return and(gs...)
+		}})
+	}
 	if fr.con != nil {
 		for _, cl := range fr.con.Invs[li.ordinal] {
 			out = append(out, invariant{src: cl.Src, expr: cl.Expr})
